@@ -254,7 +254,14 @@ def _defs_of(f, name):
                 if isinstance(t, ast.Name) and t.id == name:
                     out.append(n.value)
                 elif isinstance(t, (ast.Tuple, ast.List)) and any(isinstance(e, ast.Name) and e.id == name for e in t.elts):
-                    out.append(ast.Constant(value=Ellipsis))
+                    # a, b, c = (x, y, z): each name is defined by the element at its position (what an inlined helper that returned a
+                    # tuple leaves behind)
+                    v = n.value
+                    if isinstance(v, (ast.Tuple, ast.List)) and len(v.elts) == len(t.elts) \
+                            and not any(isinstance(e, ast.Starred) for e in list(v.elts) + list(t.elts)):
+                        out += [ve for te, ve in zip(t.elts, v.elts) if isinstance(te, ast.Name) and te.id == name]
+                    else:
+                        out.append(ast.Constant(value=Ellipsis))
         elif isinstance(n, (ast.AugAssign, ast.AnnAssign)) and isinstance(n.target, ast.Name) and n.target.id == name:
             out.append(n.value if n.value is not None else ast.Constant(value=Ellipsis))
         elif isinstance(n, (ast.For,)) and any(isinstance(x, ast.Name) and x.id == name for x in ast.walk(n.target)):
